@@ -140,7 +140,9 @@ SplitDir(s, d, u) ==
       n2 == f.size[d] - n1 + 1
       P1 == MapRows(f, d, LAMBDA row : [i \in 1..n1 |-> row[i]], n1)
       P2 == MapRows(f, d, LAMBDA row : [i \in 1..n2 |-> row[n1 - 1 + i]], n2)
-  IN <<WithDir(f, d, NormalizeKV(kv1), n1, P1), WithDir(f, d, NormalizeKV(kv2), n2, P2)>>
+      \* the pieces are new objects: they normalise the knot vectors of every direction
+      NormAll(x) == [x EXCEPT !.kv = [e \in 1..PDim(x) |-> NormalizeKV(x.kv[e])]]
+  IN <<NormAll(WithDir(f, d, kv1, n1, P1)), NormAll(WithDir(f, d, kv2, n2, P2))>>
 CanSplit(s, d, u) == RLt(DomLo(s.deg[d], s.kv[d]), u) /\ RLt(u, DomHi(s.deg[d], s.kv[d]))
 InteriorKnots(p, U) == [i \in 1..(Len(U) - 2 * (p + 1)) |-> U[p + 1 + i]]
 RECURSIVE DecomposeDir(_, _)
